@@ -120,24 +120,35 @@ def mutations_of(nv, local_idx):
     return out
 
 
-def affine(t, nv=None, expand=True, _depth=0):
+_INT_BITS = {"u8": 8, "i8": 8, "u16": 16, "i16": 16, "u32": 32, "i32": 32, "u64": 64, "i64": 64, "usize": 64, "isize": 64, "u128": 128, "i128": 128}
+
+
+def affine(t, nv=None, expand=True, _depth=0, narrow_opaque=False):
     """Linearise an integer term: returns ({atom_term: coeff}, const) or None when not affine.
     Atoms are normed non-arithmetic sub-terms.  Named single-definition locals are expanded."""
     t0 = t
     if t[0] in ("ref", "deref"):
-        return affine(t[1], nv, expand, _depth)
+        return affine(t[1], nv, expand, _depth, narrow_opaque)
     if t[0] == "cast":
-        return affine(t[1], nv, expand, _depth)
+        # a narrowing cast is not the identity on its operand: it is an opaque value of its own
+        to_, from_ = (t[2] if len(t) > 2 else None), (t[3] if len(t) > 3 else None)
+        if narrow_opaque and to_ in _INT_BITS and from_ in _INT_BITS and _INT_BITS[to_] < _INT_BITS[from_]:
+            inner = t[1]
+            while inner[0] in ("ref", "deref"):
+                inner = inner[1]
+            if not (inner[0] == "const"):
+                return ({norm(t0): 1}, 0)
+        return affine(t[1], nv, expand, _depth, narrow_opaque)
     if t[0] == "const" and isinstance(t[1], int) and not isinstance(t[1], bool):
         return ({}, t[1])
     if t[0] == "call" and t[1].rsplit("::", 1)[-1] in ("into", "from") and len(t[2]) == 1 and ("convert::Into" in t[1] or "convert::From" in t[1]):
-        return affine(t[2][0], nv, expand, _depth)
+        return affine(t[2][0], nv, expand, _depth, narrow_opaque)
     if t[0] == "field" and t[3] == 0 and t[1][0] == "bin" and t[1][1].endswith("WithOverflow"):
-        return affine(("bin", t[1][1].replace("WithOverflow", ""), t[1][2], t[1][3]), nv, expand, _depth)
+        return affine(("bin", t[1][1].replace("WithOverflow", ""), t[1][2], t[1][3]), nv, expand, _depth, narrow_opaque)
     if t[0] == "bin":
         op = t[1].replace("WithOverflow", "").replace("Unchecked", "")
-        a = affine(t[2], nv, expand, _depth)
-        b = affine(t[3], nv, expand, _depth)
+        a = affine(t[2], nv, expand, _depth, narrow_opaque)
+        b = affine(t[3], nv, expand, _depth, narrow_opaque)
         if a is None or b is None:
             return None
         if op in ("Add", "Sub"):
@@ -172,7 +183,7 @@ def affine(t, nv=None, expand=True, _depth=0):
                 dd = dd[1]
             arithmetic = dd[0] in ("bin", "const", "local") or (dd[0] == "field" and dd[1][0] == "bin")
             if arithmetic and lty in ("usize", "u32", "u64", "i32", "u16", "u8", "isize", "i64"):
-                r = affine(d, nv, expand, _depth + 1)
+                r = affine(d, nv, expand, _depth + 1, narrow_opaque)
                 if r is not None:
                     return r
     return ({norm(t0): 1}, 0)
